@@ -203,22 +203,23 @@ pub fn run(args: &Args) -> i32 {
             }
         }
     }
-    let scratches: Vec<Scratch> = (0..engine::workers()).map(|_| Scratch::new("c13")).collect();
-    engine::par_for(items.len(), args.seed, |wi, i| {
-        let (v, b, h) = &items[i];
-        check_state(*b, h, *v, &scratches[wi], None);
-    });
+    let scratch = Scratch::new("c13");
+    let counts = |r: &Report| {
+        r.set("states", json!(states.len()));
+        r.set("transitions", json!(transitions.load(Ordering::SeqCst)));
+        r.set("traces_validated_against_impl", json!(transitions.load(Ordering::SeqCst)));
+        r.set("aborted_transactions_that_reached_the_abort", json!(rolled_back_with_work.load(Ordering::SeqCst)));
+        r.set("distinct_failure_results", json!(outcomes.len()));
+    };
+    if engine::run_items_isolated(args, &report, items.len(), &|i| check_state(items[i].1, &items[i].2, items[i].0, &scratch, None), &counts, &|i| ("state".to_string(), format!("start state {:?}", items[i].2.iter().map(|k| w.alpha[*k].0).collect::<Vec<_>>()), w.replay_json(items[i].1, &items[i].2, json!({"variant": items[i].0.name()})))) {
+        return 0;
+    }
     report.sample(json!({"state": w.replay_json(items[1].1, &items[1].2, json!(null)), "transaction_body": bodies[300].iter().map(|i| body[*i].0).collect::<Vec<_>>(), "then": "closure returns Err"}));
     report.sample(json!({"state": w.replay_json(items[1].1, &items[1].2, json!(null)), "failing_query": failing[0].0}));
-    report.set("states", json!(states.len()));
-    report.set("transitions", json!(transitions.load(Ordering::SeqCst)));
-    report.set("traces_validated_against_impl", json!(transitions.load(Ordering::SeqCst)));
     report.set("start_states_enumerated", json!(items.len()));
     report.set("state_depth", json!(d0));
     report.set("transaction_bodies_per_state", json!(bodies.len()));
     report.set("failing_queries_per_state", json!(failing.len()));
-    report.set("aborted_transactions_that_reached_the_abort", json!(rolled_back_with_work.load(Ordering::SeqCst)));
-    report.set("distinct_failure_results", json!(outcomes.len()));
     report.set("variants", json!(variants.iter().map(|v| v.name()).collect::<Vec<_>>()));
     report.set("exhaustive", json!(true));
     report.set("rule", json!("from every state reached by <= state_depth steps of H from 6 base states: every transaction body of 1..3 queries over a 16-query body alphabet followed by Err from the closure, and each of 10 single queries that fail after partial work; the order-insensitive canonical dump (elements, endpoints, property sets, aliases, index contents, node count) must be unchanged"));
